@@ -205,11 +205,71 @@ func (g *Gen) Run() (err error) {
 	// modifies
 	g.evalModifies()
 	// blocks in reverse postorder ignoring back edges
+	g.prebindGhosts()
 	order := g.rpo()
 	for _, b := range order {
 		g.execBlock(b)
 	}
 	return nil
+}
+
+// prebindGhosts gives every `ghost x after F#N = ...` of the contract an unconstrained value of the right type
+// before execution starts. A clause evaluated on a path (e.g. a loop's back edge after `continue`) that is executed
+// before the block that contains F#N would otherwise find the name unbound; on such paths the ghost is arbitrary,
+// which is what a non-dominating definition means (clauses guard their use). The real binding replaces it.
+func (g *Gen) prebindGhosts() {
+	if g.fc == nil || len(g.fc.Ghosts) == 0 || len(g.fn.Blocks) == 0 {
+		return
+	}
+	entry := g.fn.Blocks[0]
+	for _, gh := range g.fc.Ghosts {
+		var t types.Type
+		if er, ok := gh.Expr.(*EResult); ok {
+			for _, b := range g.fn.Blocks {
+				for _, ins := range b.Instrs {
+					cc, ok := ins.(ssa.CallInstruction)
+					if !ok {
+						continue
+					}
+					ord, ok := g.siteOrdinal(ins)
+					if !ok {
+						continue
+					}
+					n := g.calleeName(cc.Common())
+					if _, isGo := ins.(*ssa.Go); isGo {
+						continue
+					}
+					if !siteMatches(fmt.Sprintf("%s#%d", n, ord), gh.Site) {
+						continue
+					}
+					if v, ok := ins.(ssa.Value); ok {
+						t = v.Type()
+						if tup, ok := t.(*types.Tuple); ok {
+							if er.N >= 0 && er.N < tup.Len() {
+								t = tup.At(er.N).Type()
+							} else if tup.Len() == 1 {
+								t = tup.At(0).Type()
+							} else {
+								t = nil
+							}
+						}
+					}
+				}
+			}
+		} else if id, ok := gh.Expr.(*EIdent); ok {
+			if refs := g.namedLocal[id.Name]; len(refs) > 0 {
+				t = refs[0].X.Type()
+			}
+		}
+		if t == nil {
+			continue
+		}
+		func() {
+			defer func() { _ = recover() }()
+			v := g.freshVal("ghost:"+gh.Name, t)
+			g.ghostDefs = append(g.ghostDefs, ghostDef{gh.Name, entry, v, true})
+		}()
+	}
 }
 
 // RunRegion verifies one loop of the function as a region of its own: the loop invariants are the region's
@@ -658,6 +718,15 @@ func (g *Gen) loopEnv(li *loopInfo, phiOverride map[string]Val) *Env {
 	for k, v := range g.params {
 		env.vars[k] = v
 	}
+	// ghosts bound so far (before the loop, or earlier in this iteration for `step` clauses evaluated at the back
+	// edge): the most recent binding of a name wins
+	for _, pre := range []bool{true, false} {
+		for _, d := range g.ghostDefs {
+			if d.pre == pre {
+				env.vars[d.name] = d.val
+			}
+		}
+	}
 	env.resolve = func(name string, h *Heap) (Val, bool) {
 		if name == "rangeiter" {
 			name = "rangeint.iter" // counter of a `for range N` loop (go/ssa's name is not an identifier)
@@ -825,7 +894,7 @@ func (g *Gen) localEnv() *Env {
 	// a ghost is visible where its defining point dominates (the innermost such definition wins)
 	best := map[string]*ssa.BasicBlock{}
 	for _, d := range g.ghostDefs {
-		if g.curBlock == nil || !(d.block == g.curBlock || d.block.Dominates(g.curBlock)) {
+		if d.pre || g.curBlock == nil || !(d.block == g.curBlock || d.block.Dominates(g.curBlock)) {
 			continue
 		}
 		if b, ok := best[d.name]; !ok || b.Dominates(d.block) {
@@ -835,9 +904,11 @@ func (g *Gen) localEnv() *Env {
 	}
 	// a definition that does not dominate this point is still usable: on executions that did not pass through it
 	// the value is an unconstrained term, i.e. arbitrary (clauses guard their use, e.g. `found ==> expiry <= now`)
-	for _, d := range g.ghostDefs {
-		if _, ok := env.vars[d.name]; !ok {
-			env.vars[d.name] = d.val
+	for _, pre := range []bool{false, true} {
+		for _, d := range g.ghostDefs {
+			if _, ok := env.vars[d.name]; !ok && d.pre == pre {
+				env.vars[d.name] = d.val
+			}
 		}
 	}
 	env.heap = g.heap
@@ -1059,8 +1130,50 @@ func (g *Gen) endHeapAtHeader(li *loopInfo) *Heap {
 	return g.heap
 }
 
+// unescapedHeap: heap of a map type declared `assume unescaped` in the unit's contract (package qualifiers of the
+// verified package may be omitted in the contract).
+func (g *Gen) unescapedHeap(n string) bool {
+	if g.fc == nil || len(g.fc.Unescaped) == 0 || !strings.HasPrefix(n, "map:") {
+		return false
+	}
+	norm := func(s string) string {
+		if curPkgName != "" {
+			s = strings.ReplaceAll(s, curPkgName+".", "")
+		}
+		return strings.ReplaceAll(s, " ", "")
+	}
+	for _, u := range g.fc.Unescaped {
+		if strings.HasPrefix(norm(n), "map:"+norm(u)+"#") {
+			return true
+		}
+	}
+	return false
+}
+
 func (g *Gen) havocEverything(why string) {
 	g.havocAll++
+	before := map[string]string{}
+	for n, t := range g.heap.m {
+		before[n] = t
+	}
+	defer func() {
+		// non-escaping local variables keep their contents
+		for _, la := range g.localAllocs {
+			func() {
+				defer func() { _ = recover() }()
+				p := g.ptrTo(la.ref, la.t)
+				for _, l := range g.leaves(la.t) {
+					hn := p.Prefix + l.Path
+					old, ok := before[hn]
+					cur, ok2 := g.heap.m[hn]
+					if !ok || !ok2 || old == cur {
+						continue
+					}
+					g.heap.m[hn] = g.define("keep", g.heapSorts[hn], fmt.Sprintf("(store %s %s (select %s %s))", cur, la.ref, old, la.ref))
+				}
+			}()
+		}
+	}()
 	var names []string
 	for n := range g.heapSorts {
 		names = append(names, n)
@@ -1077,6 +1190,13 @@ func (g *Gen) havocEverything(why string) {
 		if strings.HasPrefix(n, "held:") {
 			// lock ghost bits (track-locks) survive calls to unknown code: a callee is assumed not to release or
 			// take its caller's locks (recorded as an assumption where track-locks is used)
+			if _, ok := g.heap.m[n]; !ok {
+				g.heap.m[n] = g.heapGet(g.heap, n, g.heapSorts[n])
+			}
+			continue
+		}
+		if g.unescapedHeap(n) {
+			g.addAssumption("unescaped (maps of these types never reach a callee, so unknown callees leave them unchanged): " + strings.Join(g.fc.Unescaped, ", "))
 			if _, ok := g.heap.m[n]; !ok {
 				g.heap.m[n] = g.heapGet(g.heap, n, g.heapSorts[n])
 			}
@@ -1187,7 +1307,7 @@ func (g *Gen) execInstr(in ssa.Instruction) {
 					v = g.coerce(v, intT)
 				}
 				g.ghostVals[c.Name] = v
-				g.ghostDefs = append(g.ghostDefs, ghostDef{c.Name, g.curBlock, v})
+				g.ghostDefs = append(g.ghostDefs, ghostDef{c.Name, g.curBlock, v, false})
 			}
 			if len(g.pendingGhosts) > 0 {
 				// assertions may depend on the ghosts: keep them pending as well
@@ -1222,6 +1342,11 @@ func (g *Gen) execInstr(in ssa.Instruction) {
 			}
 		}
 		g.vals[x] = sv(x.Type(), r)
+		if !x.Heap {
+			// a local variable whose address never leaves the function (go/ssa's conservative escape flag): code
+			// without contract cannot change it - see havocEverything
+			g.localAllocs = append(g.localAllocs, localAlloc{r, pt})
+		}
 	case *ssa.BinOp:
 		g.vals[x] = g.binop(x)
 	case *ssa.UnOp:
@@ -1653,7 +1778,7 @@ func (g *Gen) globalConstant(gl *ssa.Global) (Val, bool) {
 			q := g.qvar()
 			var isKey []string
 			for _, e := range es {
-				k := g.coerce(g.constVal(e.K), mt.Key())
+				k := g.keyCoerce(g.constVal(e.K), mt.Key())
 				v := g.coerce(g.constVal(e.V), mt.Elem())
 				isKey = append(isKey, eq(q, k.S))
 				g.assume("true", sel(dom, ref, k.S))
@@ -1824,7 +1949,7 @@ func (g *Gen) lookup(x *ssa.Lookup) Val {
 		return sv(types.Typ[types.Uint8], "(sat "+m.S+" "+i+")")
 	}
 	mt := x.X.Type().Underlying().(*types.Map)
-	k := g.coerce(g.val(x.Index), mt.Key())
+	k := g.keyCoerce(g.val(x.Index), mt.Key())
 	env := g.baseEnv()
 	env.heap = g.heap
 	v := g.mapLookup(env, m.S, mt, k)
@@ -1840,7 +1965,7 @@ func (g *Gen) lookup(x *ssa.Lookup) Val {
 func (g *Gen) mapUpdate(x *ssa.MapUpdate) {
 	m := g.val(x.Map)
 	mt := x.Map.Type().Underlying().(*types.Map)
-	k := g.coerce(g.val(x.Key), mt.Key())
+	k := g.keyCoerce(g.val(x.Key), mt.Key())
 	v := g.coerce(g.val(x.Value), mt.Elem())
 	g.nilCheck(m.S, x.Pos(), x.Map)
 	g.frameCheck(Ptr{Prefix: "map:" + g.typeName(mt) + "#dom", Idx: []string{m.S}, T: types.Typ[types.Bool]}, x.Pos())
